@@ -12,6 +12,14 @@ import (
 
 var objs = map[unsafe.Pointer]*sched.SyncObj{}
 
+// done runs after an atomic operation that may have written: the change of a package-level variable that contains the
+// target word is the effect of a synchronisation operation, not a data write (see sched.AtomicWrote).
+func done(p unsafe.Pointer) {
+	if sched.Active() {
+		sched.AtomicWrote(p)
+	}
+}
+
 func sync(p unsafe.Pointer, name string) {
 	if !sched.Active() {
 		return
@@ -34,104 +42,197 @@ func LoadPointer(a *unsafe.Pointer) unsafe.Pointer {
 	sync(unsafe.Pointer(a), "Load")
 	return ratomic.LoadPointer(a)
 }
-func StoreInt32(a *int32, v int32)    { sync(unsafe.Pointer(a), "Store"); ratomic.StoreInt32(a, v) }
-func StoreInt64(a *int64, v int64)    { sync(unsafe.Pointer(a), "Store"); ratomic.StoreInt64(a, v) }
-func StoreUint32(a *uint32, v uint32) { sync(unsafe.Pointer(a), "Store"); ratomic.StoreUint32(a, v) }
-func StoreUint64(a *uint64, v uint64) { sync(unsafe.Pointer(a), "Store"); ratomic.StoreUint64(a, v) }
+func StoreInt32(a *int32, v int32) {
+	sync(unsafe.Pointer(a), "Store")
+	ratomic.StoreInt32(a, v)
+	done(unsafe.Pointer(a))
+}
+func StoreInt64(a *int64, v int64) {
+	sync(unsafe.Pointer(a), "Store")
+	ratomic.StoreInt64(a, v)
+	done(unsafe.Pointer(a))
+}
+func StoreUint32(a *uint32, v uint32) {
+	sync(unsafe.Pointer(a), "Store")
+	ratomic.StoreUint32(a, v)
+	done(unsafe.Pointer(a))
+}
+func StoreUint64(a *uint64, v uint64) {
+	sync(unsafe.Pointer(a), "Store")
+	ratomic.StoreUint64(a, v)
+	done(unsafe.Pointer(a))
+}
 func StorePointer(a *unsafe.Pointer, v unsafe.Pointer) {
 	sync(unsafe.Pointer(a), "Store")
 	ratomic.StorePointer(a, v)
+	done(unsafe.Pointer(a))
 }
-func AddInt32(a *int32, d int32) int32 { sync(unsafe.Pointer(a), "Add"); return ratomic.AddInt32(a, d) }
-func AddInt64(a *int64, d int64) int64 { sync(unsafe.Pointer(a), "Add"); return ratomic.AddInt64(a, d) }
+func AddInt32(a *int32, d int32) int32 {
+	sync(unsafe.Pointer(a), "Add")
+	r := ratomic.AddInt32(a, d)
+	done(unsafe.Pointer(a))
+	return r
+}
+func AddInt64(a *int64, d int64) int64 {
+	sync(unsafe.Pointer(a), "Add")
+	r := ratomic.AddInt64(a, d)
+	done(unsafe.Pointer(a))
+	return r
+}
 func AddUint32(a *uint32, d uint32) uint32 {
 	sync(unsafe.Pointer(a), "Add")
-	return ratomic.AddUint32(a, d)
+	r := ratomic.AddUint32(a, d)
+	done(unsafe.Pointer(a))
+	return r
 }
 func AddUint64(a *uint64, d uint64) uint64 {
 	sync(unsafe.Pointer(a), "Add")
-	return ratomic.AddUint64(a, d)
+	r := ratomic.AddUint64(a, d)
+	done(unsafe.Pointer(a))
+	return r
 }
 func CompareAndSwapInt32(a *int32, o, n int32) bool {
 	sync(unsafe.Pointer(a), "CAS")
-	return ratomic.CompareAndSwapInt32(a, o, n)
+	r := ratomic.CompareAndSwapInt32(a, o, n)
+	done(unsafe.Pointer(a))
+	return r
 }
 func CompareAndSwapInt64(a *int64, o, n int64) bool {
 	sync(unsafe.Pointer(a), "CAS")
-	return ratomic.CompareAndSwapInt64(a, o, n)
+	r := ratomic.CompareAndSwapInt64(a, o, n)
+	done(unsafe.Pointer(a))
+	return r
 }
 func CompareAndSwapUint32(a *uint32, o, n uint32) bool {
 	sync(unsafe.Pointer(a), "CAS")
-	return ratomic.CompareAndSwapUint32(a, o, n)
+	r := ratomic.CompareAndSwapUint32(a, o, n)
+	done(unsafe.Pointer(a))
+	return r
 }
 func CompareAndSwapUint64(a *uint64, o, n uint64) bool {
 	sync(unsafe.Pointer(a), "CAS")
-	return ratomic.CompareAndSwapUint64(a, o, n)
+	r := ratomic.CompareAndSwapUint64(a, o, n)
+	done(unsafe.Pointer(a))
+	return r
 }
 func CompareAndSwapPointer(a *unsafe.Pointer, o, n unsafe.Pointer) bool {
 	sync(unsafe.Pointer(a), "CAS")
-	return ratomic.CompareAndSwapPointer(a, o, n)
+	r := ratomic.CompareAndSwapPointer(a, o, n)
+	done(unsafe.Pointer(a))
+	return r
 }
 func SwapInt32(a *int32, n int32) int32 {
 	sync(unsafe.Pointer(a), "Swap")
-	return ratomic.SwapInt32(a, n)
+	r := ratomic.SwapInt32(a, n)
+	done(unsafe.Pointer(a))
+	return r
 }
 func SwapInt64(a *int64, n int64) int64 {
 	sync(unsafe.Pointer(a), "Swap")
-	return ratomic.SwapInt64(a, n)
+	r := ratomic.SwapInt64(a, n)
+	done(unsafe.Pointer(a))
+	return r
 }
 
 type Bool struct{ v ratomic.Bool }
 
 func (b *Bool) Load() bool   { sync(unsafe.Pointer(b), "Load"); return b.v.Load() }
-func (b *Bool) Store(x bool) { sync(unsafe.Pointer(b), "Store"); b.v.Store(x) }
+func (b *Bool) Store(x bool) { sync(unsafe.Pointer(b), "Store"); b.v.Store(x); done(unsafe.Pointer(b)) }
 func (b *Bool) CompareAndSwap(o, n bool) bool {
 	sync(unsafe.Pointer(b), "CAS")
-	return b.v.CompareAndSwap(o, n)
+	r := b.v.CompareAndSwap(o, n)
+	done(unsafe.Pointer(b))
+	return r
 }
 
 type Int32 struct{ v ratomic.Int32 }
 
-func (b *Int32) Load() int32       { sync(unsafe.Pointer(b), "Load"); return b.v.Load() }
-func (b *Int32) Store(x int32)     { sync(unsafe.Pointer(b), "Store"); b.v.Store(x) }
-func (b *Int32) Add(x int32) int32 { sync(unsafe.Pointer(b), "Add"); return b.v.Add(x) }
+func (b *Int32) Load() int32 { sync(unsafe.Pointer(b), "Load"); return b.v.Load() }
+func (b *Int32) Store(x int32) {
+	sync(unsafe.Pointer(b), "Store")
+	b.v.Store(x)
+	done(unsafe.Pointer(b))
+}
+func (b *Int32) Add(x int32) int32 {
+	sync(unsafe.Pointer(b), "Add")
+	r := b.v.Add(x)
+	done(unsafe.Pointer(b))
+	return r
+}
 func (b *Int32) CompareAndSwap(o, n int32) bool {
 	sync(unsafe.Pointer(b), "CAS")
-	return b.v.CompareAndSwap(o, n)
+	r := b.v.CompareAndSwap(o, n)
+	done(unsafe.Pointer(b))
+	return r
 }
 
 type Int64 struct{ v ratomic.Int64 }
 
-func (b *Int64) Load() int64       { sync(unsafe.Pointer(b), "Load"); return b.v.Load() }
-func (b *Int64) Store(x int64)     { sync(unsafe.Pointer(b), "Store"); b.v.Store(x) }
-func (b *Int64) Add(x int64) int64 { sync(unsafe.Pointer(b), "Add"); return b.v.Add(x) }
+func (b *Int64) Load() int64 { sync(unsafe.Pointer(b), "Load"); return b.v.Load() }
+func (b *Int64) Store(x int64) {
+	sync(unsafe.Pointer(b), "Store")
+	b.v.Store(x)
+	done(unsafe.Pointer(b))
+}
+func (b *Int64) Add(x int64) int64 {
+	sync(unsafe.Pointer(b), "Add")
+	r := b.v.Add(x)
+	done(unsafe.Pointer(b))
+	return r
+}
 
 type Uint32 struct{ v ratomic.Uint32 }
 
-func (b *Uint32) Load() uint32        { sync(unsafe.Pointer(b), "Load"); return b.v.Load() }
-func (b *Uint32) Store(x uint32)      { sync(unsafe.Pointer(b), "Store"); b.v.Store(x) }
-func (b *Uint32) Add(x uint32) uint32 { sync(unsafe.Pointer(b), "Add"); return b.v.Add(x) }
+func (b *Uint32) Load() uint32 { sync(unsafe.Pointer(b), "Load"); return b.v.Load() }
+func (b *Uint32) Store(x uint32) {
+	sync(unsafe.Pointer(b), "Store")
+	b.v.Store(x)
+	done(unsafe.Pointer(b))
+}
+func (b *Uint32) Add(x uint32) uint32 {
+	sync(unsafe.Pointer(b), "Add")
+	r := b.v.Add(x)
+	done(unsafe.Pointer(b))
+	return r
+}
 func (b *Uint32) CompareAndSwap(o, n uint32) bool {
 	sync(unsafe.Pointer(b), "CAS")
-	return b.v.CompareAndSwap(o, n)
+	r := b.v.CompareAndSwap(o, n)
+	done(unsafe.Pointer(b))
+	return r
 }
 
 type Uint64 struct{ v ratomic.Uint64 }
 
-func (b *Uint64) Load() uint64        { sync(unsafe.Pointer(b), "Load"); return b.v.Load() }
-func (b *Uint64) Store(x uint64)      { sync(unsafe.Pointer(b), "Store"); b.v.Store(x) }
-func (b *Uint64) Add(x uint64) uint64 { sync(unsafe.Pointer(b), "Add"); return b.v.Add(x) }
+func (b *Uint64) Load() uint64 { sync(unsafe.Pointer(b), "Load"); return b.v.Load() }
+func (b *Uint64) Store(x uint64) {
+	sync(unsafe.Pointer(b), "Store")
+	b.v.Store(x)
+	done(unsafe.Pointer(b))
+}
+func (b *Uint64) Add(x uint64) uint64 {
+	sync(unsafe.Pointer(b), "Add")
+	r := b.v.Add(x)
+	done(unsafe.Pointer(b))
+	return r
+}
 
 type Value struct{ v ratomic.Value }
 
 func (b *Value) Load() any   { sync(unsafe.Pointer(b), "Load"); return b.v.Load() }
-func (b *Value) Store(x any) { sync(unsafe.Pointer(b), "Store"); b.v.Store(x) }
+func (b *Value) Store(x any) { sync(unsafe.Pointer(b), "Store"); b.v.Store(x); done(unsafe.Pointer(b)) }
 
 type Pointer[T any] struct{ v ratomic.Pointer[T] }
 
-func (b *Pointer[T]) Load() *T   { sync(unsafe.Pointer(b), "Load"); return b.v.Load() }
-func (b *Pointer[T]) Store(x *T) { sync(unsafe.Pointer(b), "Store"); b.v.Store(x) }
+func (b *Pointer[T]) Load() *T { sync(unsafe.Pointer(b), "Load"); return b.v.Load() }
+func (b *Pointer[T]) Store(x *T) {
+	sync(unsafe.Pointer(b), "Store")
+	b.v.Store(x)
+	done(unsafe.Pointer(b))
+}
 func (b *Pointer[T]) CompareAndSwap(o, n *T) bool {
 	sync(unsafe.Pointer(b), "CAS")
-	return b.v.CompareAndSwap(o, n)
+	r := b.v.CompareAndSwap(o, n)
+	done(unsafe.Pointer(b))
+	return r
 }
